@@ -7,6 +7,9 @@ CLAIMED = {
  "C02": dict(technique="SSA dominance/guard analysis, provenance slicing and must-lockset over rbc and threshold",
              text="Sound static decision of named structural necessary conditions of RBC agreement (no self-vouching, N-1 quorum in linear normal form, conflicting digest halts, receiver-side classification and digest, participant filter, serialised instance). The agreement argument itself is not decided.",
              design="§4 C02"),
+ "C03": dict(technique="SSA dominance/guard analysis with calling contexts, test-and-set pattern, counting-argument premises, provenance over rbc and threshold",
+             text="Sound static decision of structural necessary conditions of RBC integrity: hand-over at most once (test-and-set on the reception entry), never nil (local guard or re-checked counting premises), self vouches only on direct receipt attributed to the transport source, point-to-point pass-through, receiver-side digest, participant filter, quorum. Behaviour under concrete schedules is not decided.",
+             design="§4 C03"),
 }
 NOT_APPLICABLE = {
  "C08": "completeness of blind/sign/unblind/PoK is an algebraic identity over runtime group elements; no clause is visible in the shape of the code (DESIGN.md §4 C08)",
